@@ -1,11 +1,12 @@
 (* C08 spec oracle: the extracted reference Spec/C08.v (spec_deviate, folded in written order) applied to one
    target node given by its attributes.
    c08spec <ign> <removable> <hmin> <hmax> <kind> <hasdir> <cfg> <mand> <n> dflt* <units> <type|~> <la|~> <n> deviate*
-     kind: Leaf Directory AnyData AnyXML Case Choice Input Notification Output; la = min:max; strings hex ("-" empty)
-   ->  k<0|1>r<0|1>s<0|1> none
-     | k..r..s.. some <removed> <cfg> <mand> [d,..] "units" "type"|- min:max|- <hmin> <hmax>
-   k: a step met KNOWN_FINDINGS sig=delete.absent-bound, r: a step the library refuses (delete of a leaf-list
-   default), s: a step outside the claim (delete of units/type) -- all along the reference run. *)
+     kind: Leaf Directory AnyData AnyXML Case Choice Input Notification Output; la = min:max; strings hex ("-" empty);
+     hmin/hmax: a min-elements / max-elements statement is present on the node (part of its list attributes)
+   ->  k0r<0|1>s<0|1> none
+     | k0r..s.. some <removed> <cfg> <mand> [d,..] "units" "type"|- min:max|- <hmin> <hmax>
+   r: a step the library refuses (delete of a leaf-list default), s: a step outside the claim (delete of
+   units/type) -- along the reference run.  (k is always 0: no known finding is classified here any more.) *)
 open BinNums
 open Datatypes
 open Drv
@@ -32,7 +33,7 @@ let do_spec ts =
     let la = (match next () with
         | "~" -> None
         | t -> (match Str_.split_on_char ':' t with
-            | [a; c] -> Some (n_of_string a, n_of_string c)
+            | [a; c] -> Some ((n_of_string a, n_of_string c), (hmin, hmax))
             | _ -> raise (Bad ("la " ^ t)))) in
     let dvs = p_list p_deviate in
     let e = Entry ([], kind, cfg, mand, dflts, units, ty, [], la, None, (if hasdir then Some [] else None), None) in
@@ -40,13 +41,12 @@ let do_spec ts =
     let rec go st = function
       | [] -> Some st
       | dv :: rest ->
-        if known_delete_absent_bound st dv then k := true;
         if refused st dv then r := true;
         if not (in_scope dv) then s := true;
         (match spec_deviate is_builtin ign removable st dv with
          | Some st' -> go st' rest
          | None -> None) in
-    let res = go (init_state e hmin hmax) dvs in
+    let res = go (init_state e) dvs in
     let fl = Printf.sprintf "k%dr%ds%d" (if !k then 1 else 0) (if !r then 1 else 0) (if !s then 1 else 0) in
     (match res with
      | None -> fl ^ " none"
@@ -59,8 +59,8 @@ let do_spec ts =
          "[" ^ Str_.concat "," (L.map (fun d -> q (s_of d)) (e_dflt n)) ^ "]";
          q (s_of (e_units n));
          (match e_ty n with Some t -> q (s_of t) | None -> "-");
-         (match e_la n with Some (mn, mx) -> string_of_n mn ^ ":" ^ string_of_n mx | None -> "-");
-         (if ts_min st then "1" else "0"); (if ts_max st then "1" else "0") ])
+         (match e_la n with Some ((mn, mx), _) -> string_of_n mn ^ ":" ^ string_of_n mx | None -> "-");
+         (if min_written n then "1" else "0"); (if max_written n then "1" else "0") ])
   with Cmd_schema.Bad m -> "bad-case:" ^ m
 
 let () = register "c08spec" do_spec
